@@ -187,16 +187,24 @@ def model_table_lines(tid, d0):
             "strides " + sp(d0["strides"]), "knots " + d0["knots"].replace(";", " "), "ext " + d0["ext"].replace(";", " "),
             "per " + d0["per"].replace(";", " "), "coef " + sp(d0["coef"])]
 
-def run_harness(exe, path, nops, timeout=3000):
-    outputs, crashes, skip = {}, [], 0
-    while skip < nops:
+HARNESS_TIMEOUT = [90]
+def run_harness(exe, path, nops, timeout=None):
+    """runs the harness over one table's operations; a crash or a hang (no result within the time limit: a table takes well
+    under a second on a correct tree) is recorded against the operation announced last on stderr and the run resumes after it;
+    after three hangs the rest of the table is abandoned"""
+    timeout = timeout or HARNESS_TIMEOUT[0]
+    outputs, crashes, skip, hangs = {}, [], 0, 0
+    while skip < nops and hangs < 3:
         try:
             p = subprocess.run([exe, path, str(skip)], stdout=subprocess.PIPE, stderr=subprocess.PIPE, text=True, timeout=timeout)
         except subprocess.TimeoutExpired as e:
             err = e.stderr.decode() if isinstance(e.stderr, bytes) else (e.stderr or "")
             ann = [l[1:] for l in err.split("\n") if l.startswith("@")]
             crashes.append((ann[-1] if ann else "<unknown>", "timeout (hang)"))
+            out_so_far = e.stdout.decode() if isinstance(e.stdout, bytes) else (e.stdout or "")
+            outputs.update(parse_lines(out_so_far))
             skip += max(1, len(ann))
+            hangs += 1
             continue
         outputs.update(parse_lines(p.stdout))
         if p.returncode == 0:
@@ -449,6 +457,7 @@ RULE = ("tables of 1..6 dims with pairwise different orders, axis lengths, knot 
 
 def run(info, out):
     tier, seed = info["tier"], info["seed"]
+    HARNESS_TIMEOUT[0] = 60 if tier == "quick" else 300
     flavours = ["f", "c"]
     stats = {}
     if info.get("replay"):
